@@ -32,6 +32,12 @@ func (f *frame) call(site siteT, cc *ssa.CallCommon) Val {
 		}
 		env := f.pointEnv(f.heap)
 		sig := cc.Signature()
+		for i, a := range cc.Args {
+			env.vars[fmt.Sprintf("arg%d", i)] = f.sval(f.get(a), a.Type())
+		}
+		if cc.IsInvoke() {
+			env.vars["recv"] = f.sval(f.get(cc.Value), cc.Value.Type())
+		}
 		if t, ok := res.(Tuple); ok {
 			for i, rv := range t {
 				env.vars[fmt.Sprintf("r%d", i)] = f.sval(rv, sig.Results().At(i).Type())
